@@ -134,12 +134,21 @@ struct World
 	bool op_kernel(std::string const& ctx, toks const& op);
 	bool op_net(std::string const& ctx, toks const& op);
 	bool op_inject(std::string const& ctx, toks const& op);
+	// application-level test servers (each in its own file)
+	bool op_http(std::string const& ctx, toks const& op);    // simdrv_http.cpp: sim::http_server   (w<k>)
+	bool op_proxy(std::string const& ctx, toks const& op);   // simdrv_proxy.cpp: sim::http_proxy   (x<k>)
+	bool op_socks(std::string const& ctx, toks const& op);   // simdrv_socks.cpp: sim::socks_server (k<k>)
+	struct Srv;                  // their objects
+	std::shared_ptr<Srv> srv;
 	sim::aux::packet make_packet(std::vector<std::string> const& route, std::uint64_t id
 		, std::string const& type, int len, int ovh, bool cb, std::string const& from);
 
 	// handler plumbing: every started asynchronous operation has an id h<k>
 	void on_handler(std::string const& h, boost::system::error_code const& ec
-		, std::string const& extra);
+		, std::string const& extra, bool run_ops = true);
+	// self-perpetuating transfers (C06): keep reading until an error / keep writing until `total`
+	void read_loop(std::string const& sock, std::string const& h, std::size_t cap);
+	void write_loop(std::string const& sock, std::string const& h, int stream, std::uint64_t total, std::size_t chunk);
 	std::function<void(boost::system::error_code const&)> make_h(std::string h);
 
 	sim::asio::io_context& node(std::string const& name);
@@ -165,9 +174,7 @@ struct World
 
 extern World* g_world;
 extern std::string g_trace_path;
-// set while the world is being torn down after `Q`: destructors still run (under the sanitizers),
-// but what they make probes / droppers see is not part of the trace
-extern bool g_teardown;
+extern bool g_muted;   // set while the world is torn down: what destructors send is not part of the trace
 
 } // namespace simdrv
 
